@@ -21,7 +21,8 @@
 EXTENDS Integers, Sequences, FiniteSets, TLC
 
 CONSTANTS IH, MaxH, L, MaxReplies, MaxCrashes, TxKinds,
-          SkipEmpty, BaseAtIH, Alias, MarksDurable, Rec
+          SkipEmpty, BaseAtIH, Alias, MarksDurable, Rec,
+          SeedDataFromHeader  \* deviation (seeded C06f): at start a data watermark that was never persisted is set to the header watermark
 
 VARIABLES
     height,     \* committed chain height (IH-1 = nothing yet)
@@ -168,7 +169,8 @@ CleanStop ==
 
 Restart ==
     /\ ~up /\ up' = TRUE
-    /\ wmH' = dwmH /\ wmD' = dwmD /\ incl' = dincl
+    /\ wmH' = dwmH /\ incl' = dincl
+    /\ wmD' = IF SeedDataFromHeader /\ dwmD = Base THEN dwmH ELSE dwmD
     /\ markH' = IF MarksDurable THEN markH ELSE fileH
     /\ markD' = IF MarksDurable THEN markD ELSE fileD
     /\ pcH' = "idle" /\ pcD' = "idle" /\ pcI' = "idle" /\ remH' = <<>> /\ remD' = <<>>
